@@ -5,7 +5,7 @@ from spec import c03 as S
 from checks.nskel import SKELETONS, LONG
 
 BOUNDS = {
-    "quick": "19 URL skeletons x every hole string of length 0..1 (0..2 for the query-escape, redirect and the two path holes after a '%') over all code points (hex digits only for the two holes that follow a '%' in the path) x quoted / strip_suffix in {F,T}; platform_aware=False",
+    "quick": "22 URL skeletons x every hole string of length 0..1 (0..2 for the query-escape, redirect and the two path holes after a '%') over all code points (hex digits only for the two holes that follow a '%' in the path) x quoted / strip_suffix in {F,T}; platform_aware=False",
     "thorough": "holes of length 0..2 (3 for path / query / fragment / redirect holes)",
 }
 STUBS = ["see C01 (urlsplit etc. interpreted; UTF-8 / quote / table models; exact model of urlsplit's NFKC check; idna cut)"]
@@ -14,8 +14,12 @@ ASSUMPTIONS = ["inputs on which a function raises are skipped here (never-raises
                "the pair form 'same normalized => same fingerprint' is decided as fingerprint(normalize(u, strip_protocol=False)) == fingerprint(u)"]
 
 
+# skeletons of this check only: an escape that is a whole path segment (an escaped dot segment)
+SKELS = list(SKELETONS) + [("path-escape-seg", "http://x.fr/a/%", "/b")]
+
+
 def hier(st, skel, n, flag):
-    name, pre, post = SKELETONS[skel]
+    name, pre, post = SKELS[skel]
     # right after a '%' the interesting fillers are hex digits: restrict the hole to them (stated in BOUNDS)
     u = cat(pre, sym_str(st, "s", n, HEXDOM if name.startswith(("path-escape", "fragment-escape")) else None), post)
     run_prop(st, "normalize_after_canonicalize", S.normalize_after_canonicalize, u, flag, False)
@@ -35,13 +39,13 @@ def qorder(st, k1, k2, flag):
 QORDER_QUICK = ()
 QORDER_ALL = (("%C3e", "c"), ("E", "c"), ("c", "E"), ("c", "c"))
 
-N2 = ("path-escape-index", "path-escape-amp", "query-escape", "redirect", "no-scheme-port", "fragment-escape", "no-scheme-redirect")
+N2 = ("path-escape-index", "path-escape-amp", "query-escape", "redirect", "no-scheme-port", "fragment-escape", "no-scheme-redirect", "path-escape-seg")
 
 
 def items(tier):
     quick = tier == "quick"
     out = []
-    for i, (name, pre, post) in enumerate(SKELETONS):
+    for i, (name, pre, post) in enumerate(SKELS):
         if quick:
             nmax = 2 if name in N2 else 1
         else:
